@@ -4,10 +4,9 @@ from __future__ import annotations
 
 import ast
 
-from .. import astq
-from ..cfg import cfg_of
-from ..loader import ClassInfo, FuncInfo, norm, walk_no_nested
+from ..loader import AnalysisError, ClassInfo, FuncInfo, norm
 from ..report import Ctx
+from . import _c16_helpers as H
 
 
 def truth_tested(fn: ast.AST) -> list[ast.AST]:
@@ -66,6 +65,24 @@ def optional_int_rule(ctx: Ctx, rule: str, cls: ClassInfo) -> int:
     n_sites = 0
     for name, fi in sorted(cls.methods.items()):
         params = {a.arg for a in fi.node.args.args + fi.node.args.kwonlyargs if _is_opt_int(a.annotation)}
+        selfname = fi.params[0] if fi.params else "self"
+
+        def is_opt(e: ast.AST) -> bool:
+            return (isinstance(e, ast.Attribute) and isinstance(e.value, ast.Name) and e.value.id == selfname and e.attr in attrs) or (isinstance(e, ast.Name) and e.id in params)
+
+        # locals that only ever hold such a value (length = self._length) are optional ints too
+        bound: dict[str, list[bool]] = {}
+        for st_ in ast.walk(fi.node):
+            if isinstance(st_, ast.Assign):
+                for tg in st_.targets:
+                    for nm in [x.id for x in ast.walk(tg) if isinstance(x, ast.Name)]:
+                        bound.setdefault(nm, []).append(isinstance(tg, ast.Name) and is_opt(st_.value))
+            elif isinstance(st_, (ast.AnnAssign, ast.AugAssign, ast.NamedExpr)) and isinstance(st_.target, ast.Name):
+                bound.setdefault(st_.target.id, []).append(isinstance(st_, (ast.AnnAssign, ast.NamedExpr)) and st_.value is not None and is_opt(st_.value))
+            elif isinstance(st_, (ast.For, ast.comprehension)):
+                for nm in [x.id for x in ast.walk(st_.target) if isinstance(x, ast.Name)]:
+                    bound.setdefault(nm, []).append(False)
+        params = params | {nm for nm, kinds in bound.items() if kinds and all(kinds) and nm not in {a.arg for a in fi.node.args.args}}
         bad = []
         for e in truth_tested(fi.node):
             if isinstance(e, ast.Attribute) and isinstance(e.value, ast.Name) and e.value.id == "self" and e.attr in attrs:
@@ -81,75 +98,158 @@ def optional_int_rule(ctx: Ctx, rule: str, cls: ClassInfo) -> int:
     return n_sites
 
 
-def headerset_insertion_rule(ctx: Ctx, rule: str) -> int:
-    """set semantics of HeaderSet: every growth of the ordered list happens one element at a time, inside the loop
-    iteration whose `key not in self._set` test admitted it, together with the insertion of that key into the set
-    (otherwise two spellings of one token in a single call are both listed)."""
-    hs = ctx.repo.cls("datastructures.structures.HeaderSet")
-    n = 0
-    for name, fi in sorted(hs.methods.items()):
-        if name == "__init__":
-            continue
-        cfg = cfg_of(fi)
-        for c in astq.calls(fi.node, nested=False):
-            f = c.func
-            if not (isinstance(f, ast.Attribute) and astq.is_self_attr(f.value, "_headers") and f.attr in ("append", "extend", "insert", "__iadd__")):
-                continue
-            n += 1
-            gnode = cfg.node_of(c)
-            guards = [(t_, l) for t_, l in cfg.guards(gnode)] if gnode is not None else []
-            member = [t_ for t_, l in guards if isinstance(t_.ast, ast.Compare) and isinstance(t_.ast.ops[0], (ast.NotIn, ast.In)) and astq.is_self_attr(t_.ast.comparators[0], "_set") and ((isinstance(t_.ast.ops[0], ast.NotIn) and l == "T") or (isinstance(t_.ast.ops[0], ast.In) and l == "F"))]
-            single = f.attr in ("append", "insert")
-            same_iter = False
-            paired = False
-            if member and gnode is not None:
-                loop = astq.enclosing(c, (ast.For, ast.While))
-                tloop = astq.enclosing(member[0].ast, (ast.For, ast.While))
-                same_iter = loop is not None and loop is tloop
-                key = norm(member[0].ast.left)
-                body = _stmt_list(c)
-                paired = any(isinstance(s, ast.Expr) and norm(s.value) in (f"self._set.add({key})",) for s in (body or []))
-            ok = single and bool(member) and same_iter and paired
-            ctx.ob(rule, f"HeaderSet.{name}: list growth is per element under its own membership test", ok,
-                   f"`{norm(c)}`: single-element={single}, membership guard={'`' + norm(member[0].ast) + '`' if member else None}, same loop iteration={same_iter}, key added to _set alongside={paired}", fi, c, f"HeaderSet.{name} growth {f.attr}")
-    return n
+_roles_cache: dict[int, tuple[str, str]] = {}
 
 
-def _stmt_list(node: ast.AST):
-    cur = node
-    while cur is not None and not isinstance(cur, ast.stmt):
-        cur = astq.parent(cur)
-    p = astq.parent(cur) if cur is not None else None
-    if p is None:
-        return None
-    for fld in ("body", "orelse", "finalbody"):
-        lst = getattr(p, fld, None)
-        if isinstance(lst, list) and any(x is cur for x in lst):
-            return lst
+def headerset_roles(repo) -> tuple[str, str]:
+    """(ordered-list attribute, lower-case-set attribute) of HeaderSet, found by what the constructor stores: the
+    attribute built as a list of the given items, and the one built from lower-cased elements."""
+    got = _roles_cache.get(id(repo))
+    if got is not None:
+        return got
+    hs = repo.cls("datastructures.structures.HeaderSet")
+    stores: list[tuple] = []
+    ex = H.Exec(repo, hs, on_event=lambda a, ev, st: (stores.append(ev) if ev[0] == "mut" and ev[2] == "store" else None) or a)
+    ex.run_function(hs.methods["__init__"], auto0=None)
+    sets = sorted({e[1] for e in stores if H.lowered_elements(e[3][0])})
+    lists = sorted({e[1] for e in stores if e[1] not in sets and isinstance(H.P(e[3][0]), (ast.Call, ast.List, ast.ListComp)) and (H.dotted(getattr(H.P(e[3][0]), "func", None)) in ("list", None))})
+    if len(sets) != 1 or len(lists) != 1:
+        raise AnalysisError(f"HeaderSet.__init__: cannot identify the ordered list / lower-case set attributes (lists {lists}, sets {sets})")
+    _roles_cache[id(repo)] = (lists[0], sets[0])
+    return lists[0], sets[0]
+
+
+def _hs_public(hs: ClassInfo) -> list[tuple[str, FuncInfo]]:
+    return [(n, f) for n, f in sorted(hs.methods.items()) if n != "__init__" and (not n.startswith("_") or (n.startswith("__") and n.endswith("__")))]
+
+
+def _single_element(term: str) -> str | None:
+    n = H.P(term)
+    if isinstance(n, (ast.List, ast.Tuple, ast.Set)) and len(n.elts) == 1 and not isinstance(n.elts[0], ast.Starred):
+        return H.text(n.elts[0])
     return None
+
+
+def _lowered_of(key: str, x: str) -> bool:
+    """``key`` is the lower-cased form of term ``x``."""
+    n = H.P(key)
+    if isinstance(n, ast.Call) and isinstance(n.func, ast.Attribute) and n.func.attr in ("lower", "casefold") and not n.args:
+        return H.text(n.func.value) == H.text(H.P(x))
+    if isinstance(n, ast.Call) and H.dotted(n.func) in ("str.lower", "str.casefold") and len(n.args) == 1:
+        return H.text(n.args[0]) == H.text(H.P(x))
+    return False
+
+
+def headerset_insertion_rule(ctx: Ctx, rule: str) -> int:
+    """set semantics of HeaderSet: every growth of the ordered list happens one element at a time, on a path on which
+    that element's lower-cased key was found absent from the lower-case set (since the set last changed and for the
+    element of the current iteration), together with the insertion of that key into the set before the next growth
+    or the exit (otherwise two spellings of one token in a single call are both listed).  Decided path-wise on the
+    inlined call graph of every public method (helpers, early continue, flipped tests, aliases)."""
+    repo = ctx.repo
+    hs = repo.cls("datastructures.structures.HeaderSet")
+    LIST, SET = headerset_roles(repo)
+    in_set = f" in __self__.{SET}"
+    sites: dict[int, dict] = {}
+
+    def site(ev) -> dict:
+        d = sites.get(id(ev[-2]))
+        if d is None:
+            d = sites[id(ev[-2])] = {"node": ev[-2], "fi": ev[-1], "op": ev[2], "single": True, "guard": True, "paired": True, "why": []}
+        return d
+
+    def on_event(a, ev, st):
+        pending, pre = a  # pending: (key, site id) of a growth whose key is not yet in the set; pre: key added ahead of its growth
+        if ev[0] != "mut":
+            return a
+        loc, op, args = ev[1], ev[2], ev[3]
+        if loc == LIST:
+            x = None
+            grows = True
+            if op in ("append", "insert", "appendleft") and args:
+                x = args[-1]
+            elif op in ("extend", "__iadd__") and args:
+                x = _single_element(args[0])
+            elif op == "__setitem__":
+                grows = isinstance(H.P(args[0]), ast.Slice)
+            elif op == "store":
+                c = H.const_of(args[0]) if args else H._NOCONST
+                grows = not (c is not H._NOCONST and not c)
+            else:
+                grows = False
+            if not grows:
+                return a
+            d = site(ev)
+            if pending is not None:
+                sites[pending[1]]["paired"] = False
+                sites[pending[1]]["why"].append(f"the list grows again before `{pending[0]}` is added to the set")
+                pending = None
+            if x is None:
+                d["single"] = False
+                d["why"].append(f"`{H.norm(ev[-2])}` adds several elements at once")
+                return (None, None)
+            absent = [k[: -len(in_set)] for k, v in st.facts.items() if v is False and k.endswith(in_set)]
+            keys = [k for k in absent if _lowered_of(k, x)]
+            if pre is not None and _lowered_of(pre, x):
+                return (None, None)
+            if not keys:
+                d["guard"] = False
+                d["why"].append(f"`{H.norm(ev[-2])}` is reached on a path that has not found the element's lower-cased key absent from the set")
+                return (None, None)
+            return ((keys[0], id(ev[-2])), None)
+        if loc == SET:
+            k = None
+            if op == "add" and args:
+                k = args[0]
+            elif op in ("update", "__ior__") and args:
+                k = _single_element(args[0])
+            if k is not None:
+                if pending is not None and pending[0] == k:
+                    return (None, None)
+                if pending is None and st.facts.get(f"{k}{in_set}") is False:
+                    return (None, k)
+        return a
+
+    for name, fi in _hs_public(hs):
+        ex = H.Exec(repo, hs, on_event=on_event)
+        for o in ex.run_function(fi, auto0=(None, None)):
+            if o.st.auto[0] is not None and not o.value.startswith("~"):
+                key, sid = o.st.auto[0]
+                sites[sid]["paired"] = False
+                sites[sid]["why"].append(f"a path leaves the method without adding `{key}` to the set")
+    for d in sorted(sites.values(), key=lambda d: (d["fi"].fq if d["fi"] else "", getattr(d["node"], "lineno", 0))):
+        fi = d["fi"]
+        nm = fi.name if fi is not None else "?"
+        ok = d["single"] and d["guard"] and d["paired"]
+        fact = f"`{H.norm(d['node'])}`: single-element={d['single']}, found absent on every path={d['guard']}, key added to _set alongside={d['paired']}" + ("; " + d["why"][0] if d["why"] else "")
+        ctx.ob(rule, f"HeaderSet.{nm}: list growth is per element under its own membership test", ok, fact, fi or hs.fq, d["node"], f"HeaderSet.{nm} growth {d['op']}")
+    return len(sites)
 
 
 def headerset_order_rule(ctx: Ctx, rule: str) -> int:
     """in a HeaderSet method that both drops a key from the lower-case set and adds one, the drop comes first: a drop
-    that can run after the add deletes the key that was just added when both spell the same token."""
-    hs = ctx.repo.cls("datastructures.structures.HeaderSet")
+    that can run after the add deletes the key that was just added when both spell the same token.  Decided on the
+    event order of every path of the inlined call graph."""
+    repo = ctx.repo
+    hs = repo.cls("datastructures.structures.HeaderSet")
+    _, SET = headerset_roles(repo)
     n = 0
-    for name, fi in sorted(hs.methods.items()):
-        if name == "__init__":
-            continue
-        cfg = cfg_of(fi)
-        adds = [c for c in astq.calls(fi.node, nested=False) if isinstance(c.func, ast.Attribute) and astq.is_self_attr(c.func.value, "_set") and c.func.attr in ("add", "update")]
-        drops = [c for c in astq.calls(fi.node, nested=False) if isinstance(c.func, ast.Attribute) and astq.is_self_attr(c.func.value, "_set") and c.func.attr in ("remove", "discard", "pop", "difference_update")]
-        if not adds or not drops:
+
+    def on_event(a, ev, st):
+        added, dropped, bad = a
+        if ev[0] == "op" and ev[1] == SET:
+            if ev[2] in ("add", "update", "__ior__"):
+                return (H.norm(ev[-2]), dropped, bad)
+            if ev[2] in ("remove", "discard", "pop", "difference_update", "__isub__", "__delitem__"):
+                return (added, True, bad or (f"`{H.norm(ev[-2])}` can run after `{added}`" if added else None))
+        return a
+
+    for name, fi in _hs_public(hs):
+        ex = H.Exec(repo, hs, on_event=on_event)
+        outs = ex.run_function(fi, auto0=(None, False, None))
+        if not any(o.st.auto[0] and o.st.auto[1] for o in outs):
             continue
         n += 1
-        bad = []
-        for a in adds:
-            an = cfg.node_of(a)
-            r = cfg.reach(an)
-            for d in drops:
-                dn = cfg.node_of(d)
-                if dn is not None and an is not None and dn is not an and dn.id in r:
-                    bad.append(f"`{norm(d)}` can run after `{norm(a)}`")
+        bad = sorted({o.st.auto[2] for o in outs if o.st.auto[2]})
         ctx.ob(rule, f"HeaderSet.{name}: a key is dropped from the lower-case set before the new key is added", not bad, "; ".join(bad) or "every drop precedes every add", fi, fi.node, f"HeaderSet.{name} drop-before-add")
     return n
